@@ -172,6 +172,9 @@ struct Gen {
   st: Stats,
   ops: String,
   obs: String,
+  /// crash journal: the op line is appended (and flushed) to PREFIX.ops.part BEFORE it is executed and its answer
+  /// to PREFIX.impl.part after, so that a crash of the process leaves the failing history on disk
+  journal: Option<(std::fs::File, std::fs::File)>,
   // per case
   case: Option<Box<dyn CaseApi>>,
   cfg_line: String,
@@ -196,6 +199,11 @@ impl Gen {
     if !is_cfg && self.left == 0 {
       return String::new();
     }
+    if let Some((o, _)) = &mut self.journal {
+      use std::io::Write;
+      let _ = writeln!(o, "{line}");
+      let _ = o.flush();
+    }
     watchdog_begin(&self.cfg_line, &line);
     let ans = if is_cfg {
       self.case = None;
@@ -209,6 +217,11 @@ impl Gen {
       }
     };
     watchdog_end();
+    if let Some((_, i)) = &mut self.journal {
+      use std::io::Write;
+      let _ = writeln!(i, "{ans}");
+      let _ = i.flush();
+    }
     let op = line.split(' ').next().unwrap_or("").to_string();
     let rk = match ans.strip_prefix("r=") {
       Some(rest) => rest.split(' ').next().unwrap_or("").to_string(),
@@ -1287,6 +1300,15 @@ fn gen(args: &[String]) {
     st: Stats::default(),
     ops: String::new(),
     obs: String::new(),
+    journal: {
+      if let Some(dir) = Path::new(&out).parent() {
+        let _ = std::fs::create_dir_all(dir);
+      }
+      match (std::fs::File::create(format!("{out}.ops.part")), std::fs::File::create(format!("{out}.impl.part"))) {
+        (Ok(a), Ok(b)) => Some((a, b)),
+        _ => None,
+      }
+    },
     case: None,
     cfg_line: String::new(),
     next_h: 0,
@@ -1304,6 +1326,9 @@ fn gen(args: &[String]) {
   }
   std::fs::write(format!("{out}.ops"), &g.ops).expect("write .ops");
   std::fs::write(format!("{out}.impl"), &g.obs).expect("write .impl");
+  g.journal = None;
+  let _ = std::fs::remove_file(format!("{out}.ops.part"));
+  let _ = std::fs::remove_file(format!("{out}.impl.part"));
   let st = &g.st;
   let panics: Vec<String> = st
     .panics
